@@ -150,8 +150,17 @@ def _gen_case(rng, tier, g):
         # configuration enumeration: the same input under EVERY buffersize
         # 1..n+2 and None x cache on/off, two passes each
         steps = [['ITER', 't0', 0], ['DRAIN', 't0']]
+    inner = None
+    if op == 'sort' and rng.random() < 0.15:
+        inner = [_pick_key(rng, nf), rng.random() < 0.3, rng.random() < 0.5]
+    if op == 'mergesort' and len(tables) > 1 and hdr_arg is None \
+            and (key is None or presorted) and rng.random() < 0.1:
+        # an input that yields nothing at all, not even a header
+        tables[rng.randrange(len(tables) - 1)] = []
+        if perms is not None:
+            perms = None
     return {'prop': PROP, 'op': op, 'tables': tables, 'perms': perms,
-            'sweep': sweep,
+            'sweep': sweep, 'inner': inner,
             'key': key, 'reverse': rng.random() < 0.35,
             'buffersize': _bufsizes(rng, n0 if op == 'sort' else max(n0, 1)),
             'cache': rng.random() < 0.7, 'tempdir': rng.random() < 0.4,
@@ -184,7 +193,12 @@ def _tables(case):
 def _expected(case, tables):
     key, rev = case['key'], case['reverse']
     if case['op'] == 'sort':
-        return ref_sort(tables[0], key, rev)
+        t = tables[0]
+        if case.get('inner') is not None:
+            # the table given to sort() is itself a sort view (on another
+            # key): ties of the outer key stay in *that* view's order
+            t = ref_sort(t, case['inner'][0], case['inner'][1])
+        return ref_sort(t, key, rev)
     cat = ref_cat(tables, header=case.get('header'),
                   missing=case.get('missing'))
     return ref_sort(cat, key, rev)
@@ -220,7 +234,12 @@ def _history(e, case, tables, expected, td, sb, log, probes):
     if case['tempdir']:
         kw['tempdir'] = td
     if case['op'] == 'sort':
-        view = e.sort(srcs[0], case['key'], reverse=case['reverse'], **kw)
+        src0 = srcs[0]
+        if case.get('inner') is not None:
+            src0 = e.sort(src0, case['inner'][0], reverse=case['inner'][1],
+                          cache=case['inner'][2])
+            probes['sort-of-a-sort-view'] = 1
+        view = e.sort(src0, case['key'], reverse=case['reverse'], **kw)
     else:
         ins = srcs
         if case['presorted']:
